@@ -74,7 +74,7 @@ fn set_dns(r: &mut DhcpRepr<'static>, n: Option<usize>) {
         Some(n) => {
             r.dns_servers = Some(Default::default());
             let v = r.dns_servers.as_mut().unwrap();
-            for i in 0..n {
+            for i in 0..n.min(DHCP_MAX_DNS_SERVER_COUNT) {
                 v.push(v4s()[i]).expect("dns server capacity");
             }
         }
